@@ -45,7 +45,8 @@ func runC09(c *Ctx) {
 	// (closed), the delete / query / add rules - and every property that borrows them - are still decided
 	walkOK := true
 	ws := P.Method("ctree", "Tree", "WalkSorted")
-	for n, ok := range map[string]bool{"walkInternalSorted / WalkSorted": wis != nil || ws != nil, "walkInternal": wi != nil, "String": str != nil, "enumerateChildren": ec != nil} {
+	// (enumerateChildren may be folded into queryInternal: the query table does not depend on the split)
+	for n, ok := range map[string]bool{"walkInternalSorted / WalkSorted": wis != nil || ws != nil, "walkInternal": wi != nil, "String": str != nil} {
 		if !ok {
 			c.Unresolved("C09.sorted", "ctree.(*Tree)."+n)
 			walkOK = false
@@ -441,7 +442,13 @@ func runC09(c *Ctx) {
 	if wis != nil {
 		walkFns = append(walkFns, wis)
 	}
-	for _, f := range append(append([]*ssa.Function{}, walkFns...), ec) {
+	visitFns := append([]*ssa.Function{}, walkFns...)
+	if ec != nil {
+		visitFns = append(visitFns, ec)
+	} else if qi := P.Method("ctree", "Tree", "queryInternal"); qi != nil {
+		visitFns = append(visitFns, qi)
+	}
+	for _, f := range visitFns {
 		c.Analysed(fnName(f))
 		var vp ssa.Value
 		for _, p := range f.Params {
